@@ -78,6 +78,9 @@ pub enum Project {
     /// /verif's own multi-module library: structs, enums, traits, impls, consts and generic
     /// functions with plenty of lines whose order matters.
     Playground,
+    /// Like the playground, but with standing ownership errors: its lowering diagnostics carry
+    /// notes with their own locations ("variable was previously used here").
+    PlaygroundErrors,
 }
 impl Project {
     pub fn path(self) -> &'static str {
@@ -86,11 +89,12 @@ impl Project {
             Project::BugSamples => "/repo/tests/bug_samples",
             Project::StarknetTests => "/repo/crates/cairo-lang-starknet/cairo_level_tests",
             Project::Playground => "/verif/harness/projects/playground",
+            Project::PlaygroundErrors => "/verif/harness/projects/playground_errors",
         }
     }
     pub fn plugins(self) -> Plugins {
         match self {
-            Project::Examples | Project::Playground => Plugins::Default,
+            Project::Examples | Project::Playground | Project::PlaygroundErrors => Plugins::Default,
             _ => Plugins::Starknet,
         }
     }
@@ -100,10 +104,11 @@ impl Project {
             Project::BugSamples => "bug_samples",
             Project::StarknetTests => "cairo_level_tests",
             Project::Playground => "playground",
+            Project::PlaygroundErrors => "playground_errors",
         }
     }
     pub fn files(self) -> Vec<PathBuf> {
-        if self == Project::Playground {
+        if matches!(self, Project::Playground | Project::PlaygroundErrors) {
             // Not part of the /repo corpus: read the directory itself.
             let mut v: Vec<PathBuf> = std::fs::read_dir(Path::new(self.path()).join("src"))
                 .map(|d| d.filter_map(|e| e.ok().map(|e| e.path())).filter(|p| p.extension().is_some_and(|e| e == "cairo")).collect())
@@ -518,6 +523,8 @@ pub fn c13_worker(ctx: &mut Ctx) {
         }
         let project = if ctx.tier == crate::report::Tier::Thorough && h % 5 == 4 {
             Project::BugSamples
+        } else if h % 4 == 1 {
+            Project::PlaygroundErrors
         } else if h % 2 == 1 {
             Project::Playground
         } else {
@@ -537,6 +544,7 @@ pub fn c13_replay(case: &serde_json::Value) -> Result<Option<String>, String> {
         "examples" => Project::Examples,
         "bug_samples" => Project::BugSamples,
         "playground" => Project::Playground,
+        "playground_errors" => Project::PlaygroundErrors,
         _ => return Err("unknown project".into()),
     };
     let cfg: Config = serde_json::from_value(case["cfg"].clone()).map_err(|e| e.to_string())?;
